@@ -41,6 +41,12 @@ CHECKS = {
   text="BFS to depth 3 (quick) / 4 (thorough), from the empty state and from a populated state, over AddFact / RemFact / AddRule / RemRule / SetParents(every parent set of size <= 2: self-loops, 2- and 3-cycles, chains, fans, diamonds) / ProcessEvent on three locations, driven through core.SimpleLocationProvider and through sys.System, on both states. The rule has an inherited pattern condition and an action that calls Env.AddFact. After every step each location's inherited and local searches, rule candidates, query and parents are compared with a model (tree-shaped ancestry: own + transitive parents; looping ancestry: an error, and the call returns), and the private state + storage of every location other than the one operated on must be unchanged.",
   note="Diamond ancestry is outside the statement's forests (skipped, counted). Actions run with serialActions (concurrent actions are C04/C12). A worker that dies is attributed to its journaled history.",
   design="2/C09"),
+ "C11": dict(
+  engine="SCHED",
+  technique="stateless model checking of the implementation: controlled scheduler + deviation-bounded DFS over schedules of clients on a fresh sys.System, solo-run differential oracle, vector-clock race detection on maps and on sys/cron struct fields",
+  text="Client threads each own one location of a FRESH sys.System (so the very first requests race on start-up state): all ordered pairs of {AddFact, SearchFacts, AddRule, ProcessEvent, GetFact} as first requests, six 2x2-request programs, (thorough) three clients; the storage is created lazily by the System or injected; both states. Every schedule with at most 2 deviations (3 thorough) is executed: each client's results must equal those of running it alone on a fresh System, each location's memory and the pairs stored for it in THE SYSTEM'S storage must equal the solo run's, and there must be no deadlock, escaped panic or happens-before race (map accesses everywhere, pointer-reached struct fields in sys and cron are race-checked and are scheduling points).",
+  note="The HTTP layer itself is not scheduled (requests enter at the sys.System API; the service mapping is C18). Struct-field instrumentation is limited to packages sys and cron.",
+  design="2/C11"),
  "C12": dict(
   engine="SCHED",
   technique="stateless model checking of the implementation: controlled cooperative scheduler + deviation-bounded DFS over thread schedules, brute-force linearizability against sequential runs, vector-clock happens-before race detection on instrumented maps",
